@@ -450,6 +450,12 @@ func TestReplay(t *testing.T) {
 		t.Skip("no VERIF_REPLAY_FILE")
 	}
 	defer ctx.Rec.Flush()
+	if v.Test == "cold-start" {
+		// the cold start is what this very process did first (TestMain): its outcome is the replay
+		ctx.Rec.Case("replay", true, "cold-start", c, "cold-start")
+		ctx.Judge(t, v.Test, coldFailure, c)
+		return
+	}
 	record("replay", c)
 	ctx.Judge(t, v.Test, runCase(c), c)
 }
